@@ -5,3 +5,48 @@ pub fn bad_spawn() -> std::thread::JoinHandle<()> {
 pub fn bad_forget(v: Vec<u8>) {
     std::mem::forget(v);
 }
+
+/// stand-in for tokio::task::yield_now
+pub fn yield_now() {}
+pub struct Work(pub u32);
+impl Work {
+    pub fn route(&mut self, x: u32) -> u32 {
+        self.0 = self.0.wrapping_add(x);
+        self.0
+    }
+}
+/// negative: every iteration that does work reaches the countdown/yield gate
+pub fn good_driver(mut w: Work, items: &[u32]) {
+    let mut until_yield = 4u32;
+    for &x in items {
+        if x == 0 {
+            continue;
+        }
+        w.route(x);
+        if until_yield == 0 {
+            yield_now();
+            until_yield = 4;
+        } else {
+            until_yield -= 1;
+        }
+    }
+}
+/// seeded: an iteration that did work can `continue` past the gate
+pub fn bad_driver(mut w: Work, items: &[u32]) {
+    let mut until_yield = 4u32;
+    for &x in items {
+        if x == 0 {
+            continue;
+        }
+        let r = w.route(x);
+        if r % 2 == 0 {
+            continue;
+        }
+        if until_yield == 0 {
+            yield_now();
+            until_yield = 4;
+        } else {
+            until_yield -= 1;
+        }
+    }
+}
